@@ -307,6 +307,18 @@ class SyncFrontEnd(Contract):
             g["got"] = dict(b)
             return g["res"]
         ctx.callee_contracts[self.callee] = stub
+        g["wrapped_in"] = []
+
+        def native_override(interp, f, args, kw):
+            # the document buffering switches of the dependency: writes inside such a block do not reach the files until it is left, which
+            # defeats the file-level backup / roll-back of the synchronisation
+            name = getattr(f, "__qualname__", "") or getattr(f, "__name__", "")
+            if name.endswith(("buffer_backend", "buffered", "buffer_all")) or "buffer" in name.lower():
+                from pyvc.interp import TransparentCM
+                g["wrapped_in"].append(name)
+                return TransparentCM(None)
+            return NotImplemented
+        ctx.native_override = native_override
         return ctx
 
     def setup(self, interp, case):
@@ -330,6 +342,8 @@ class SyncFrontEnd(Contract):
                       z3.BoolVal(flat.get(self.src_name) is pre["other"] and flat.get(self.dst_name) is pre["o"]), note=repr({k: flat.get(k) for k in (self.src_name, self.dst_name)}))
             rest = {k: v for k, v in flat.items() if k not in (self.src_name, self.dst_name)}
             ex.oblige(self.oname("ensures:every_option_is_handed_on_unchanged"), z3.BoolVal(set(rest) >= set(pre["kw"]) and all(rest[k] is v for k, v in pre["kw"].items())), note=repr(rest)[:300])
+            ex.oblige(self.oname("ensures:the_call_is_not_wrapped_in_a_document_buffering_block_(which_would_bypass_the_file-level_roll-back)"),
+                      z3.BoolVal(g["wrapped_in"] == []), note=repr(g["wrapped_in"]))
         else:
             ex.oblige(self.oname("ensures:the_synchronisation_function_is_called"), False, note=repr(outcome))
 
